@@ -4,8 +4,18 @@
 //   append <current value> <item>     the key holds <current value> (Put, also when empty)
 //   absent <item>                     the key was never written
 //   twice <current value> <item1> <item2>   two appends in a row (second starts from the first's result)
+//   host <memsize> <base> <blob> <keyspan> <valuespan> <current value|absent>
+//        the real host function ext_storage_append_version_1 called with a wazero module that only
+//        exports one page of memory (all zero except <blob> written at offset <base>); the spans are
+//        ptr | size<<32 (hex numbers) and may overlap, be empty, or lie outside the memory. The key
+//        the harness stores <current value> under is cut out of <blob> by the harness itself; when the
+//        key is not empty a bystander entry 3a6f74686572 ("other") = 0411 is stored first.
+//   dec <bytes>                       scale.Unmarshal(bytes, &bigIntPointer) — the length parser alone
 // observables:
-//   <stored value after storageAppend, hex> | err:<where> | panic
+//   append/absent/twice: <stored value after storageAppend, hex> | err:<where> | panic
+//   host: [panic ]<key>=<value>,... mem=<1 iff the guest memory is unchanged>   (all storage entries,
+//         sorted by key; "()" if none)
+//   dec:  ok:<big-endian magnitude, hex> | err
 //
 // The storage is a real storage.TrieState over an empty in-memory trie; half of the cases (chosen
 // by the parity of the item length, so that run stays a pure function of the input) run inside
@@ -13,14 +23,23 @@
 package wazero_runtime
 
 import (
+	"bytes"
+	"context"
 	"encoding/binary"
+	"fmt"
 	"math/big"
+	"sort"
 	"strings"
+	"sync"
 	"testing"
 
 	vu "github.com/ChainSafe/gossamer/internal/verifutil"
+	"github.com/ChainSafe/gossamer/lib/runtime"
 	"github.com/ChainSafe/gossamer/lib/runtime/storage"
 	inmemory_trie "github.com/ChainSafe/gossamer/pkg/trie/inmemory"
+	"github.com/ChainSafe/gossamer/pkg/scale"
+	"github.com/tetratelabs/wazero"
+	"github.com/tetratelabs/wazero/api"
 )
 
 var c09Key = []byte(":c09:list")
@@ -153,6 +172,9 @@ func c09Value(r *vu.RNG) []byte {
 }
 
 func c09Gen(r *vu.RNG, n int, emit func(string)) {
+	// verifutil.NewRNG(seed) starts at seed*golden+c and U64 advances by golden, so the streams of seed s and
+	// s+1 are the same stream shifted by one draw; re-seeding from a mixed output decorrelates the seeds
+	r = r.Fork()
 	item := []byte{0xaa}
 	// every boundary length, canonical, with and without payload
 	for _, v := range c09Boundaries {
@@ -183,6 +205,258 @@ func c09Gen(r *vu.RNG, n int, emit func(string)) {
 			emit("append " + vu.Hex(c09Value(r)) + " " + vu.Hex(it))
 		}
 	}
+	// the host function with its memory marshalling
+	for _, s := range c09HostFixed {
+		emit(s)
+	}
+	for i := 0; i < n/3; i++ {
+		emit(c09GenHost(r))
+	}
+	// the length parser alone: every boundary, canonical and not, truncated, random
+	for _, v := range c09Boundaries {
+		emit("dec " + vu.Hex(c09Compact(v)))
+		emit("dec " + vu.Hex(append(c09Compact(v), 0)))
+	}
+	// every boundary length in every mode that is wider than its canonical one (non-canonical), for
+	// the parser and for the append
+	for _, v := range c09Boundaries {
+		for mode := 1; mode <= 3; mode++ {
+			if (mode == 1 && v.BitLen() > 14) || (mode == 2 && v.BitLen() > 30) {
+				continue
+			}
+			w := len(v.Bytes())
+			if w < 4 {
+				w = 4
+			}
+			enc := c09Forced(v, mode, w)
+			if bytes.Equal(enc, c09Compact(v)) {
+				if mode != 3 || w >= 67 {
+					continue
+				}
+				enc = c09Forced(v, mode, w+1) // one zero byte too many
+			}
+			emit("dec " + vu.Hex(enc))
+			emit("append " + vu.Hex(append(append([]byte{}, enc...), 1, 2)) + " aa")
+		}
+	}
+	for i := 0; i < n/8; i++ {
+		emit("dec " + vu.Hex(c09Value(r)))
+	}
+}
+
+// ---- host function cases ----
+
+// (module (memory (export "memory") 1))
+var c09Wasm = []byte{
+	0x00, 0x61, 0x73, 0x6d, 0x01, 0x00, 0x00, 0x00,
+	0x05, 0x03, 0x01, 0x00, 0x01,
+	0x07, 0x0a, 0x01, 0x06, 'm', 'e', 'm', 'o', 'r', 'y', 0x02, 0x00,
+}
+
+const c09MemSize = 65536
+
+var (
+	c09Once sync.Once
+	c09Mod  api.Module
+	c09Err  error
+)
+
+func c09Module() (api.Module, error) {
+	c09Once.Do(func() {
+		ctx := context.Background()
+		rt := wazero.NewRuntime(ctx)
+		c09Mod, c09Err = rt.Instantiate(ctx, c09Wasm)
+	})
+	return c09Mod, c09Err
+}
+
+var c09Other = []byte(":other")
+
+func c09Span(ptr, size uint64) string { return vu.X(ptr | size<<32) }
+
+var c09HostFixed = []string{
+	// key "ab" at 16, item "cd" at 18, absent / list of one
+	"host 10000 10 abcd 100000010 100000011 absent",
+	"host 10000 10 abcd 100000010 100000011 04ee",
+	// empty item, empty key
+	"host 10000 10 abcd 100000010 12 04ee",
+	"host 10000 10 abcd 10 100000011 04ee",
+	// both spans identical; overlapping spans
+	"host 10000 0 abcdef 200000000 200000000 fc",
+	"host 10000 0 abcdef 200000000 200000001 -",
+	// spans ending exactly at the end of the memory; empty span at the end
+	"host 10000 fffe abcd 10000fffe 10000ffff 08aabb",
+	"host 10000 fffe abcd 10000fffe 10000 absent",
+	// one byte beyond the memory: key span, value span; empty span beyond; huge size; huge pointer
+	"host 10000 fffe abcd 20000ffff 10000fffe 04ee",
+	"host 10000 fffe abcd 10000fffe 20000ffff 04ee",
+	"host 10000 fffe abcd 10000fffe 10001 04ee",
+	"host 10000 0 abcd 100000000 ffffffff00000001 04ee",
+	"host 10000 0 abcd 100000000 1ffffffff 04ee",
+	"host 10000 0 abcd ffffffff00000000 100000001 absent",
+}
+
+func c09GenHost(r *vu.RNG) string {
+	var blob []byte
+	var ko, ks, vo, vs int // offsets and sizes inside blob
+	switch r.Intn(5) {
+	case 0: // key then item, adjacent
+		ks, vs = r.Intn(6), r.Intn(8)
+		blob = r.Bytes(ks + vs)
+		ko, vo = 0, ks
+	case 1: // item, gap, key
+		ks, vs = 1+r.Intn(5), r.Intn(8)
+		gap := r.Intn(4)
+		blob = r.Bytes(vs + gap + ks)
+		vo, ko = 0, vs+gap
+	case 2: // arbitrary, possibly overlapping
+		blob = r.Bytes(1 + r.Intn(12))
+		ko = r.Intn(len(blob) + 1)
+		ks = r.Intn(len(blob) - ko + 1)
+		vo = r.Intn(len(blob) + 1)
+		vs = r.Intn(len(blob) - vo + 1)
+	case 3: // identical spans
+		blob = r.Bytes(1 + r.Intn(6))
+		ko, ks = 0, len(blob)
+		vo, vs = 0, len(blob)
+	default: // item reaches beyond the blob into the zero memory (not at the end of the memory)
+		ks = 1 + r.Intn(4)
+		blob = r.Bytes(ks + r.Intn(4))
+		ko = 0
+		vo, vs = ks, len(blob)-ks+1+r.Intn(3)
+	}
+	base := []int{0, 1, 16, 1000, 40000, c09MemSize - len(blob)}[r.Intn(6)]
+	if vo+vs > len(blob) && base+vo+vs > c09MemSize {
+		base = 16
+	}
+	kp, kn := uint64(base+ko), uint64(ks)
+	vp, vn := uint64(base+vo), uint64(vs)
+	if r.Chance(1, 8) { // out of range (or just in range) on one of the spans
+		var p, n uint64
+		switch r.Intn(7) {
+		case 0:
+			p, n = c09MemSize, 1
+		case 1:
+			p, n = c09MemSize-1, 2
+		case 2:
+			p, n = c09MemSize, 0 // valid: empty span at the very end
+		case 3:
+			p, n = c09MemSize+1, 0
+		case 4:
+			p, n = uint64(base), 0xffffffff
+		case 5:
+			p, n = 0xffffffff, 1
+		default:
+			p, n = uint64(r.Intn(c09MemSize)), uint64(c09MemSize-r.Intn(3))
+		}
+		if r.Chance(1, 2) {
+			kp, kn = p, n
+		} else {
+			vp, vn = p, n
+		}
+	}
+	cur := "absent"
+	if !r.Chance(1, 5) {
+		cur = vu.Hex(c09Value(r))
+	}
+	return fmt.Sprintf("host %s %s %s %s %s %s", vu.X(c09MemSize), vu.X(uint64(base)), vu.Hex(blob),
+		c09Span(kp, kn), c09Span(vp, vn), cur)
+}
+
+func c09Entries(ts *storage.TrieState) string {
+	ents := ts.TrieEntries()
+	keys := make([]string, 0, len(ents))
+	for k := range ents {
+		keys = append(keys, k)
+	}
+	sort.Strings(keys)
+	if len(keys) == 0 {
+		return "()"
+	}
+	parts := make([]string, len(keys))
+	for i, k := range keys {
+		parts[i] = vu.Hex([]byte(k)) + "=" + vu.Hex(ents[k])
+	}
+	return strings.Join(parts, ",")
+}
+
+func c09RunHost(f []string) (out string) {
+	if len(f) != 7 {
+		return "err:badinput"
+	}
+	m, err := c09Module()
+	if err != nil {
+		return "err:module"
+	}
+	mem := m.Memory()
+	if uint64(mem.Size()) != vu.UnX(f[1]) {
+		return "err:memsize"
+	}
+	base, blob := uint32(vu.UnX(f[2])), vu.UnHex(f[3])
+	kspan, vspan := vu.UnX(f[4]), vu.UnX(f[5])
+	image := make([]byte, c09MemSize)
+	if int(base)+len(blob) > c09MemSize {
+		return "err:badinput"
+	}
+	copy(image[base:], blob)
+	if !mem.Write(0, image) {
+		return "err:memwrite"
+	}
+	ts := storage.NewTrieState(inmemory_trie.NewEmptyTrie())
+	// the key as the harness cuts it out of the image (nil when the span is out of range)
+	kp, kn := kspan&0xffffffff, kspan>>32
+	if kp+kn <= c09MemSize {
+		key := append([]byte{}, image[kp:kp+kn]...)
+		if len(key) > 0 {
+			if err := ts.Put(c09Other, []byte{0x04, 0x11}); err != nil {
+				return "err:put"
+			}
+		}
+		if f[6] != "absent" {
+			if err := ts.Put(key, vu.UnHex(f[6])); err != nil {
+				return "err:put"
+			}
+		}
+	}
+	inTx := len(blob)%2 == 1
+	if inTx {
+		ts.StartTransaction()
+	}
+	finish := func(prefix string) string {
+		if inTx {
+			ts.CommitTransaction()
+		}
+		after, ok := mem.Read(0, c09MemSize)
+		same := ok && bytes.Equal(after, image)
+		memTok := " mem=0"
+		if same {
+			memTok = " mem=1"
+		}
+		return prefix + c09Entries(ts) + memTok
+	}
+	defer func() {
+		if p := recover(); p != nil {
+			out = finish("panic ")
+		}
+	}()
+	rtCtx := &runtime.Context{Storage: ts}
+	ctx := context.WithValue(context.Background(), runtimeContextKey, rtCtx)
+	ext_storage_append_version_1(ctx, m, kspan, vspan)
+	return finish("")
+}
+
+func c09RunDec(f []string) string {
+	if len(f) != 2 {
+		return "err:badinput"
+	}
+	var x *big.Int
+	if err := scale.Unmarshal(vu.UnHex(f[1]), &x); err != nil {
+		return "err"
+	}
+	if x == nil {
+		return "err:nil"
+	}
+	return "ok:" + vu.Hex(x.Bytes())
 }
 
 func c09Append(ts *storage.TrieState, item []byte) string {
@@ -194,6 +468,12 @@ func c09Append(ts *storage.TrieState, item []byte) string {
 
 func c09Run(in string) string {
 	f := strings.Split(in, " ")
+	switch f[0] {
+	case "host":
+		return c09RunHost(f)
+	case "dec":
+		return c09RunDec(f)
+	}
 	ts := storage.NewTrieState(inmemory_trie.NewEmptyTrie())
 	var items [][]byte
 	switch f[0] {
